@@ -657,7 +657,9 @@ impl<'x> VisitMut for AnchorFinder<'x> {
             let before = self.cands.len();
             let t = stmt_text(s);
             self.visit_stmt_mut(s);
-            if self.cands.len() == before && t.contains(self.anchor) {
+            let t_nospace: String = t.chars().filter(|c| !c.is_whitespace()).collect();
+            let a_nospace: String = self.anchor.chars().filter(|c| !c.is_whitespace()).collect();
+            if self.cands.len() == before && (t.contains(self.anchor) || t_nospace.contains(&a_nospace)) {
                 self.cands.push((me, i));
             }
         }
